@@ -11,6 +11,8 @@ mod c06;
 mod c10;
 mod sqlite;
 mod c08;
+mod c07;
+mod c14;
 
 fn main() {
     let args: Vec<String> = std::env::args().collect();
@@ -55,7 +57,9 @@ fn main() {
         "C06" => c06::run(&outdir, seed, thorough),
         "C10" => c10::run(&outdir, seed, thorough),
         "C08" => c08::run(&outdir, seed, thorough),
+        "C07" | "C14" => c07::run(&prop, &outdir, seed, thorough),
         p if p.starts_with("C06@") => c06::child(p[4..].parse().unwrap(), &outdir, seed, thorough),
+        "GEN-FNMETA" => { if let Err(e) = c14::generate(&outdir) { eprintln!("{}", e); std::process::exit(1); } return; }
         "GEN-RULES" => { if let Err(e) = rules::generate(&outdir) { eprintln!("{}", e); std::process::exit(1); } return; }
         _ => { eprintln!("unknown property {}", prop); std::process::exit(2); }
     };
